@@ -71,7 +71,7 @@ AttrOrder(attrs, hoist) ==
 RECURSIVE EagerOrder(_, _, _), KidsOrder(_, _, _, _)
 SingleRuntimeChild(el, o) ==       \* the single child that is evaluated with the vnode: identifier / call decided at runtime, object literal
   LET ccs == SelectSeq(Coalesce(el.children), Contributes) IN
-  IF o.enableObjectSlots /\ Len(ccs) = 1 /\ ccs[1].k = "expr" /\ Peel(ccs[1].e).k \in {"ident", "call"}
+  IF o.enableObjectSlots /\ ~HasVSlots(el.attrs) /\ Len(ccs) = 1 /\ ccs[1].k = "expr" /\ Peel(ccs[1].e).k \in {"ident", "call"}
   THEN <<Peel(ccs[1].e)>>
   ELSE IF Len(ccs) = 1 /\ ccs[1].k = "expr" /\ Peel(ccs[1].e).k = "objlit"
   THEN <<Peel(ccs[1].e)>>          \* a single object-literal child IS the slots object: built when the vnode is created (C03)
